@@ -39,6 +39,7 @@ def run(ctx):
     ctx.do(MI.rule_enum1, [H.HYP])
     ctx.do(MI.rule_rng1, only={"Point.distance"})
     ctx.do(MI.rule_tol1)
+    ctx.do(MI.rule_zd2)
     ctx.do(DT.rule_lk1, [H.HYP], scope=ctx.scope(ENTRIES))
     ctx.do(SH.rule_ax1, [SH.CORE, H.HYP], scope=ctx.scope(ENTRIES))
     ctx.do(u1, ENTRIES, min_functions=15)
